@@ -11,6 +11,9 @@ Coercion OErr : err >-> obs_err.
 
 Inductive observed :=
 | ObsOk (r : list (nat * list polygon))
+| ObsOkFloat (r : list (nat * list polygon))   (* observed on a grid whose pixel centres are not exact floats (real tile
+     matrix sets, decimal synthetic grids): the float signs of areas and the float order of equal areas are outside
+     the model (DESIGN 4.2), so ring direction, role, nesting and order are NOT compared; the undirected edges are *)
 | ObsPanic (e : obs_err).
 
 Record snapcase := SnapCase {
@@ -22,30 +25,6 @@ Definition run (c : snapcase) : res (list (nat * list polygon)) :=
   snapPolygonFull (sc_grid c) (sc_poly c) (sc_levels c) (sc_cfg c).
 
 Definition level_eqb (a b : nat * list polygon) : bool := Nat.eqb (fst a) (fst b) && polys_eqb (snd a) (snd b).
-
-(** strictest comparison: identical result, identical panic kind *)
-Definition check_exact (c : snapcase) : bool :=
-  match run c, sc_obs c with
-  | Ok r, ObsOk o => list_eqb level_eqb r o
-  | Err e, ObsPanic (OErr e') => err_eqb e e'
-  | _, _ => false
-  end.
-
-(** {ok, panic kind} only (C06, C09) *)
-Definition check_outcome (c : snapcase) : bool :=
-  match run c, sc_obs c with
-  | Ok r, ObsOk o => Bool.eqb (match r with [] => true | _ => false end) (match o with [] => true | _ => false end)
-  | Err e, ObsPanic (OErr e') => err_eqb e e'
-  | _, _ => false
-  end.
-
-(** generic: compare a projection of the successful results, panic kinds exactly *)
-Definition check_proj {A} (proj : list (nat * list polygon) -> A) (eqb : A -> A -> bool) (c : snapcase) : bool :=
-  match run c, sc_obs c with
-  | Ok r, ObsOk o => eqb (proj r) (proj o)
-  | Err e, ObsPanic (OErr e') => err_eqb e e'
-  | _, _ => false
-  end.
 
 (** ** projections *)
 
@@ -104,3 +83,32 @@ Definition proj_nesting (r : list (nat * list polygon)) : list (nat * list (list
   map (fun lp => (fst lp, map (map (fun rg => fold_right ins_edge [] (ring_edges rg))) (snd lp))) r.
 Definition eq_nesting (a b : list (nat * list (list (list edge)))) : bool :=
   list_eqb (fun x y => Nat.eqb (fst x) (fst y) && list_eqb (list_eqb (list_eqb edge_eqb)) (snd x) (snd y)) a b.
+
+(** ** the comparisons *)
+
+(** strictest comparison: identical result, identical panic kind *)
+Definition check_exact (c : snapcase) : bool :=
+  match run c, sc_obs c with
+  | Ok r, ObsOk o => list_eqb level_eqb r o
+  | Ok r, ObsOkFloat o => eq_edges (proj_edges r) (proj_edges o)
+  | Err e, ObsPanic (OErr e') => err_eqb e e'
+  | _, _ => false
+  end.
+
+(** {ok, panic kind} only (C06, C09) *)
+Definition check_outcome (c : snapcase) : bool :=
+  match run c, sc_obs c with
+  | Ok r, ObsOk o | Ok r, ObsOkFloat o => Bool.eqb (match r with [] => true | _ => false end) (match o with [] => true | _ => false end)
+  | Err e, ObsPanic (OErr e') => err_eqb e e'
+  | _, _ => false
+  end.
+
+(** generic: compare a projection of the successful results, panic kinds exactly *)
+Definition check_proj {A} (proj : list (nat * list polygon) -> A) (eqb : A -> A -> bool) (c : snapcase) : bool :=
+  match run c, sc_obs c with
+  | Ok r, ObsOk o => eqb (proj r) (proj o)
+  | Ok r, ObsOkFloat o => eq_edges (proj_edges r) (proj_edges o)
+  | Err e, ObsPanic (OErr e') => err_eqb e e'
+  | _, _ => false
+  end.
+
